@@ -895,6 +895,13 @@ Section Nsimp.
   Lemma Cv_nsimp0 E A X m m' : nsimp [] m m' -> Cv P E A X m -> Cv P E A X m'.
   Proof. apply (Cv_nsimp [] E A X m m'). Qed.
 
+  Lemma Cv_same E A X m m' :
+    heap m' = heap m -> slots m' = slots m -> bag m' = bag m -> values m' = values m -> dead m' = dead m ->
+    pc m' = pc m -> Cv P E A X m -> Cv P E A X m'.
+  Proof.
+    intros H1 H2 H3 H4 H5 H6. apply Cv_nsimp0. split; [apply nsim_same; assumption|]. rewrite H6. auto.
+  Qed.
+
   Lemma pc_dec_size o m : pc (dec_size o m) = pc m.
   Proof. unfold dec_size. destruct (pc_size m =? 0)%N; reflexivity. Qed.
   Lemma pc_tick k m : pc (tick k m).1 = pc m.
